@@ -156,28 +156,37 @@ def _sexp(text):
 
 
 def cond_hints(cond_text, table, extra_right=()):
-    """candidate hints for one printed condition (op L R): the hints recorded for texts equal to L and R, paired level by
-    level (the same assumed noise on both sides)"""
+    """candidate hints for one printed condition (op L R): the hints recorded for EVERY convert call that printed a text equal
+    to L, paired with those of every call that printed R (two different trees may print the same text - "0" is what a
+    vanishing product and a small constant both become), level by level (the same assumed noise on both sides), the most
+    probable level first"""
     try:
         e = _sexp(cond_text)
         if not (isinstance(e, list) and len(e) == 3 and e[0] in CMP):
             return []
         l, r = _show(e[1]), _show(e[2])
         n = len(LEVELS)
-        ls = table.get(l, [l] * n)
-        rs = table.get(r, [r] * n)
+        lss = table.get(l) or [[l] * n]
+        rss = table.get(r) or [[r] * n]
         out = []
-        for a, b in list(zip(ls, rs)) + [(a, x) for a in ls[:1] for x in extra_right]:
-            h = "(%s %s %s)" % (e[0], a, b)
-            if h != _show(e) and h not in out:
-                out.append(h)
+        for level in range(n):
+            for ls in lss:
+                for rs in rss:
+                    h = "(%s %s %s)" % (e[0], ls[level], rs[level])
+                    if h != _show(e) and h not in out:
+                        out.append(h)
+        for ls in lss:
+            for x in extra_right:
+                h = "(%s %s %s)" % (e[0], ls[0], x)
+                if h != _show(e) and h not in out:
+                    out.append(h)
         return out
     except Exception:  # noqa
         return []
 
 
 def hint_table():
-    """printed text -> its hints, one per level"""
+    """printed text -> the hint lists (one hint per level) of the convert calls that printed it, in call order"""
     table = {}
     for g in _LOG:
         if g.get("kind") == "convert" and len(g.get("hints") or []) == len(LEVELS) and isinstance(g.get("result"), str):
@@ -185,7 +194,9 @@ def hint_table():
                 key = _show(_sexp(g["result"]))
             except Exception:  # noqa
                 continue
-            table.setdefault(key, g["hints"])
+            lst = table.setdefault(key, [])
+            if g["hints"] not in lst:
+                lst.append(g["hints"])
     return table
 
 
@@ -348,16 +359,21 @@ def run(job):
     return out
 
 
+MAX_HINTS = 24
+
+
 def make_hints(job, out):
     if "ok" not in out:
         return []
     table = hint_table()
     if job["entry"] == "expr":
         hs = []
-        for h in table.get(_show(_sexp(out["ok"][0])), []):
-            if h not in hs:
-                hs.append(h)
-        return hs
+        lists = table.get(_show(_sexp(out["ok"][0])), [])
+        for level in range(len(LEVELS)):
+            for hl in lists:
+                if hl[level] not in hs:
+                    hs.append(hl[level])
+        return hs[:MAX_HINTS]
     conds = out["ok"]
     if job["entry"] == "print":
         e = _sexp(out["ok"][0])
@@ -365,16 +381,19 @@ def make_hints(job, out):
     extra = []
     if job["entry"] == "tree":
         extra = [_show(_sexp(job["conds"][0])[2])]
-    hints = []
-    for c in conds:
-        for h in cond_hints(c, table, extra):
-            if h not in hints:
-                hints.append(h)
+    per_cond = [cond_hints(c, table, extra) for c in conds]
+    # round robin over the printed conditions, so that the cap never starves one of them
+    hints, k = [], 0
+    while len(hints) < MAX_HINTS and any(k < len(pc) for pc in per_cond):
+        for pc in per_cond:
+            if k < len(pc) and pc[k] not in hints and len(hints) < MAX_HINTS:
+                hints.append(pc[k])
+        k += 1
     for c in job["conds"]:
         c = _show(_sexp(c))
         if c not in hints:
             hints.append(c)
-    return hints[:16]
+    return hints
 
 
 def _show(e):
